@@ -612,7 +612,7 @@ Section Dyn.
       { split; [split; [intros j x H; destruct j; discriminate|exists s0; reflexivity]|reflexivity]. }
       intros K s x s1 Hv [[IH _] Hrun] Hb Hval Hap.
       assert (Hrun1 : run_blocks batch s0 (K ++ [x]) = Ok s1).
-      { rewrite (run_blocks_app batch Hbatch), Hrun. cbn [run_blocks]. rewrite Hap. reflexivity. }
+      { rewrite (run_blocks_app batch), Hrun. cbn [run_blocks]. rewrite Hap. reflexivity. }
       split; [|exact Hrun1]. split; [|exists s1; exact Hrun1].
       intros j y Hy. destruct (Nat.lt_ge_cases j (length K)) as [Hlt|Hge].
       + rewrite nth_error_app1 in Hy by exact Hlt. rewrite firstn_app. replace (j - length K)%nat with 0%nat by lia.
@@ -623,7 +623,7 @@ Section Dyn.
         split; [unfold VotesGhost.tipof in Hb; exact Hb|]. exists s. split; assumption.
     - induction K as [|x K IH] using rev_ind; intros [Hall [s1 Hrun]]; [unfold validD; rewrite viewD_nil; discriminate|].
       assert (HK : validD_decl K).
-      { rewrite (run_blocks_app batch Hbatch) in Hrun. destruct (run_blocks batch s0 K) as [s|e] eqn:Er; [|discriminate].
+      { rewrite (run_blocks_app batch) in Hrun. destruct (run_blocks batch s0 K) as [s|e] eqn:Er; [|discriminate].
         split; [|exists s; exact Er]. intros j y Hy.
         assert (Hlt : (j < length K)%nat) by (apply nth_error_Some; intros E; assert (E2 : Some y = None) by (etransitivity; [symmetry; exact Hy|exact E]); discriminate E2).
         specialize (Hall j y). rewrite nth_error_app1 in Hall by exact Hlt. specialize (Hall Hy).
@@ -635,7 +635,7 @@ Section Dyn.
       destruct (Hall _ _ Hx) as (Hh & s' & Hr' & Hval).
       rewrite firstn_app, Nat.sub_diag, firstn_all in Hr'. cbn [firstn] in Hr'. rewrite app_nil_r in Hr'.
       rewrite Hr in Hr'. injection Hr' as <-.
-      rewrite (run_blocks_app batch Hbatch), Hr in Hrun. cbn [run_blocks] in Hrun.
+      rewrite (run_blocks_app batch), Hr in Hrun. cbn [run_blocks] in Hrun.
       destruct (apply_block batch s x) as [s2|e] eqn:Eb; cbn [bind] in Hrun; [|discriminate].
       assert (Hv1 : viewD (K ++ [x]) = Some s2).
       { apply viewD_snoc. exists s. split; [exact Hv|]. apply stepD_intro; auto. }
